@@ -269,4 +269,71 @@ theorem lastOcc_extend {P : Nat → Bool} {L L' : Nat} (hL : L ≤ L') (h : ∀ 
     lastOcc P L' = lastOcc P L := by
   cases h2 : lastOcc P L <;> chain_finish
 
+/-! ### chain ends in the two-step form the code uses, with a decoration -/
+
+/-- ends of a chain after removing `p` (decorated by `r`), in the two-step form the code uses -/
+theorem ends_remove {β : Type} {P : Nat → Bool} {L p : Nat} (hp : P p = true) (hpL : p < L) (r : Nat → β) :
+    (let e0 := zipOpt ((firstOcc P L).map r) ((lastOcc P L).map r)
+     let e1 := match (prevOcc P p).map r with
+       | some _ => e0
+       | none => (match e0 with | some (_, tail) => ((nextOcc P L p).map r).map (fun nh => (nh, tail)) | none => none)
+     let e2 := match (nextOcc P L p).map r with
+       | some _ => e1
+       | none => (match e1 with | some (head, _) => ((prevOcc P p).map r).map (fun nt => (head, nt)) | none => none)
+     e2) = zipOpt ((firstOcc (upd P p false) L).map r) ((lastOcc (upd P p false) L).map r) := by
+  rw [firstOcc_remove, lastOcc_remove hpL]
+  obtain ⟨f, hf⟩ := first_some_of_mem hp hpL
+  obtain ⟨l, hl⟩ := last_some_of_mem hp hpL
+  cases hprev : prevOcc P p with
+  | none =>
+    have hf' := firstOcc_eq_of_prev_none hp hpL hprev
+    cases hnext : nextOcc P L p with
+    | none =>
+      have hl' := lastOcc_eq_of_next_none hp hpL hnext
+      simp [hf', hl', zipOpt]
+    | some nx => simp [hf', hl, zipOpt]
+  | some lp =>
+    cases hnext : nextOcc P L p with
+    | none =>
+      have hl' := lastOcc_eq_of_next_none hp hpL hnext
+      simp [hf, hl', zipOpt]
+    | some nx => simp [hf, hl, zipOpt]
+
+/-- ends of a chain after inserting `p`; the decoration may change at `p` only -/
+theorem ends_insert {β : Type} {P : Nat → Bool} {L p : Nat} (hp : P p = false) (hpL : p < L)
+    (r r' : Nat → β) (hr : ∀ q, q ≠ p → r' q = r q) :
+    (let e0 := zipOpt ((firstOcc P L).map r) ((lastOcc P L).map r)
+     let e1 := match prevOcc P p with
+       | some _ => e0
+       | none => (match e0 with | some (_, tail) => some (r' p, tail) | none => some (r' p, r' p))
+     let e2 := match nextOcc P L p with
+       | some _ => e1
+       | none => (match e1 with | some (head, _) => some (head, r' p) | none => some (r' p, r' p))
+     e2) = zipOpt ((firstOcc (upd P p true) L).map r') ((lastOcc (upd P p true) L).map r') := by
+  rw [firstOcc_insert hpL, lastOcc_insert hpL]
+  have hne_f : ∀ f, firstOcc P L = some f → r' f = r f := by
+    intro f hf; apply hr; intro e; subst e; have := (firstOcc_mem hf).2; rw [hp] at this; cases this
+  have hne_l : ∀ l, lastOcc P L = some l → r' l = r l := by
+    intro l hl; apply hr; intro e; subst e; have := (lastOcc_mem hl).2; rw [hp] at this; cases this
+  cases hprev : prevOcc P p with
+  | none =>
+    cases hnext : nextOcc P L p with
+    | none =>
+      obtain ⟨h1, h2⟩ := first_none_of_none_none hprev hnext hp
+      simp [h1, h2, zipOpt]
+    | some nx =>
+      obtain ⟨l, hl⟩ := last_some_of_next_some hnext
+      have hf := firstOcc_eq_of_prevOcc_none (L := L) hprev hp
+      simp [hf, hnext, hl, zipOpt, hne_l l hl]
+  | some lp =>
+    obtain ⟨f, hf⟩ := first_some_of_prev_some hprev hpL
+    cases hnext : nextOcc P L p with
+    | none =>
+      obtain ⟨h1, h2⟩ := prevOcc_lt hprev
+      obtain ⟨l, hl⟩ := last_some_of_mem h2 (by omega : lp < L)
+      simp [hf, hl, zipOpt, hne_f f hf]
+    | some nx =>
+      obtain ⟨l, hl⟩ := last_some_of_next_some hnext
+      simp [hf, hl, zipOpt, hne_f f hf, hne_l l hl]
+
 end Qmc
